@@ -66,7 +66,11 @@ pub fn horner_class<U: CircuitUni>(c: &p3_circuit::Circuit<U::EF>) -> Option<&'s
         let non_final = alu[i].0 && alu.get(i + 1).is_some_and(|n| n.0);
         if non_final {
             let o = alu[i].2;
-            let read_elsewhere = other_reads.contains(&o)
+            // ... or that shares its slot with a Const / Public row (connect alias): either way the
+            // slot lives on the bus elsewhere while the packed row does not carry it
+            let aliased = c.public_rows.contains(&o) || c.ops.iter().any(|op| matches!(op, p3_circuit::Op::Const { out, .. } if *out == o));
+            let read_elsewhere = aliased
+                || other_reads.contains(&o)
                 || alu.iter().enumerate().any(|(j, r)| j != i && (r.1.iter().any(|x| *x == Some(o)) || (r.2 == o)));
             if read_elsewhere {
                 bad = Some("horner_intermediate_out_read");
@@ -253,7 +257,7 @@ pub fn replay_one<U: CircuitUni>(ctx: &Ctx, body: &serde_json::Value, c09: bool)
         }
     };
     let key = body["key"].as_str().unwrap_or("");
-    let hit = if c09 { o.issues.iter().any(|k| k == key) || key == "monitor_missed_imbalance" && o.fail.is_some() } else { c10_key(&o).as_deref() == Some(key) };
+    let hit = if c09 { o.issues.iter().any(|k| k == key) || key == "monitor_missed_imbalance" && o.fail.is_some() && o.horner.is_none() && o.issues.is_empty() } else { c10_key(&o).as_deref() == Some(key) };
     println!("replay: issues={:?} horner={:?} fail={:?}", o.issues, o.horner, o.fail.as_ref().map(|f| (f.stage.name(), f.msg.chars().take(200).collect::<String>())));
     if hit {
         println!("VIOLATION property={} replay={}", ctx.prop, ctx.replay.as_ref().unwrap().display());
